@@ -4,7 +4,7 @@ use linfa::prelude::*;
 use linfa_linear::{Link, TweedieRegressor};
 use linfa_logistic::error::Error as LogErr;
 use linfa_logistic::{LogisticRegression, MultiLogisticRegression};
-use ndarray::{Array1, Array2};
+use ndarray::{s, Array1, Array2, CowArray, Ix1, Ix2, ShapeBuilder};
 use std::sync::mpsc;
 use std::time::Duration;
 use vh::*;
@@ -31,8 +31,12 @@ fn with_timeout<T: Send + 'static, G: FnOnce() -> T + Send + 'static>(secs: u64,
     rx.recv_timeout(Duration::from_secs(secs)).ok()
 }
 
+/// watchdog for one fit, in seconds (probes of feature scales outside the solver's range get a short one)
+static WATCHDOG_SECS: std::sync::atomic::AtomicU64 = std::sync::atomic::AtomicU64::new(20);
+
 fn run_guarded<T: Send + 'static, G: FnOnce() -> Result<T, FitErr> + Send + 'static>(f: G) -> Result<T, FitErr> {
-    match with_timeout(20, move || guarded(std::panic::AssertUnwindSafe(f))) {
+    let secs = WATCHDOG_SECS.load(std::sync::atomic::Ordering::Relaxed);
+    match with_timeout(secs, move || guarded(std::panic::AssertUnwindSafe(f))) {
         None => Err(FitErr::Hang),
         Some(Err(p)) => Err(FitErr::Panic(p)),
         Some(Ok(r)) => r,
@@ -41,6 +45,170 @@ fn run_guarded<T: Send + 'static, G: FnOnce() -> Result<T, FitErr> + Send + 'sta
 
 fn arr(rows: &[Vec<f64>], d: usize) -> Array2<f64> {
     Array2::from_shape_vec((rows.len(), d), rows.iter().flatten().cloned().collect()).unwrap()
+}
+
+// ---------------------------------------------------------------------------------------------
+// memory layouts: the same logical records / targets / query batches presented with different strides
+// ---------------------------------------------------------------------------------------------
+
+#[derive(Clone, Copy, Debug, PartialEq)]
+enum Lay {
+    Std,      // row-major, owned
+    Fort,     // column-major (Fortran order), owned
+    RevRowsV, // view with a negative row stride
+    RevRowsO, // .to_owned() of that view (ndarray keeps the negative stride)
+    RevColsV, // view with a negative column stride
+    RevColsO, // .to_owned() of that view
+    Stride2V, // every second row and column of a (2n, 2d) array (junk in between)
+}
+const LAYS: [Lay; 7] = [Lay::Std, Lay::Fort, Lay::RevRowsV, Lay::RevRowsO, Lay::RevColsV, Lay::RevColsO, Lay::Stride2V];
+impl Lay {
+    fn name(self) -> &'static str {
+        match self {
+            Lay::Std => "std", Lay::Fort => "fortran", Lay::RevRowsV => "revrows_view", Lay::RevRowsO => "revrows_owned",
+            Lay::RevColsV => "revcols_view", Lay::RevColsO => "revcols_owned", Lay::Stride2V => "stride2_view",
+        }
+    }
+    fn coq(self) -> &'static str {
+        match self {
+            Lay::Std => "LStd", Lay::Fort => "LFort", Lay::RevRowsV => "LRevRowsV", Lay::RevRowsO => "LRevRowsO",
+            Lay::RevColsV => "LRevColsV", Lay::RevColsO => "LRevColsO", Lay::Stride2V => "LStride2V",
+        }
+    }
+    /// does ndarray's `row.dot(&w)` see a contiguous row (-> unrolled_dot) for an (n, d) array of this layout?
+    /// (the model's prediction; checked against the real array in Laid2::cow)
+    fn rows_contig(self, n: usize, d: usize) -> bool {
+        d <= 1 || match self { Lay::Std | Lay::RevRowsV | Lay::RevRowsO => true, Lay::Fort => n <= 1, _ => false }
+    }
+}
+/// layouts of 1-dimensional targets
+#[derive(Clone, Copy, Debug, PartialEq)]
+enum Lay1 { Std, RevV, RevO, Stride2V }
+const LAYS1: [Lay1; 4] = [Lay1::Std, Lay1::RevV, Lay1::RevO, Lay1::Stride2V];
+impl Lay1 {
+    fn name(self) -> &'static str {
+        match self { Lay1::Std => "std", Lay1::RevV => "rev_view", Lay1::RevO => "rev_owned", Lay1::Stride2V => "stride2_view" }
+    }
+}
+/// rotation over m alternatives that does not lock in with any other period of the case index
+fn rot(it: usize, salt: usize, m: usize) -> usize { (it + it / m + salt) % m }
+
+/// power-of-two feature scales: exponent k of s = 2^k, rotated over the cases of a stream.  The lists hold the
+/// scales at which the solver terminates with a result (see props/C12.json, assumptions); the larger scales of the
+/// sweep (2^40; for the GLM also 2^20), where argmin's line search fails or does not terminate, are visited by a
+/// few probe cases per run with a short watchdog.  C12_SCALES=<k,k,..> overrides the lists (experiments).
+fn scale_for(model: &str, it: usize) -> i32 {
+    if let Ok(v) = std::env::var("C12_SCALES") {
+        let v: Vec<i32> = v.split(',').map(|t| t.trim().parse().unwrap()).collect();
+        return v[rot(it, 2, v.len())];
+    }
+    // the GLM (first step overflows exp) and the f32 model (range of the type) have a narrower range
+    let narrow = model == "glm" || model == "binary_f32";
+    // probes outside the solver's range
+    if it == 5 { return if narrow { 20 } else { 40 }; }
+    if narrow && it == 11 { return 40; }
+    let list: &[i32] = if narrow { &[0, -40, 0, -20, 0, -20, 0, -40] } else { &[0, -40, 20, 0, -20, 0, 20, -20] };
+    list[rot(it, 2, list.len())]
+}
+/// feature scales at which fits are expected to fail or hang (known finding F-C12-1): short watchdog
+fn scale_out_of_range(model: &str, k: i32) -> bool { k >= 40 || ((model == "glm" || model == "binary_f32") && k >= 20) }
+fn set_watchdog(model: &str, k: i32) {
+    if std::env::var("C12_WATCHDOG").is_ok() { return; }
+    WATCHDOG_SECS.store(if scale_out_of_range(model, k) { 3 } else { 20 }, std::sync::atomic::Ordering::Relaxed);
+}
+/// is the stationarity claim made for this case?  (the range where the solver honours its gradient tolerance;
+/// outside it the fit is still run and everything else is still checked)
+///   - not at the feature scales where fits fail or hang (scale_out_of_range);
+///   - with a fitted intercept: at every other scale (the tolerance is then in the unit of the larger gradient
+///     component, see tol_unit);
+///   - without one: only while the features are not tiny, |X|_F >= 2^-20.  Below that the whole gradient is tiny,
+///     a step changes the cost by less than argmin's absolute |delta cost| < EPSILON rule and the solver returns
+///     the start point or stops a few steps after it (at 2^-40 always; at 2^-20 for features of base scale 0.01).
+fn stat_claimed(model: &str, k: i32, icpt: bool, xfro: f64) -> bool {
+    if std::env::var("C12_STAT_ALL").is_ok() { return true; }
+    !scale_out_of_range(model, k) && (icpt || xfro >= 2f64.powi(-20))
+}
+fn frob<T: Copy + Into<f64>>(x: &[Vec<T>]) -> f64 {
+    x.iter().flatten().map(|v| { let f: f64 = (*v).into(); f * f }).sum::<f64>().sqrt()
+}
+fn tol_unit(s: f64, icpt: bool) -> f64 { if icpt { s.max(1.0) } else { s } }
+fn scale_tag(k: i32) -> String { format!("scale_2^{}", k) }
+
+#[derive(Clone, Copy, Debug)]
+struct Lays { x: Lay, y: Lay1, q: Lay }
+impl Lays {
+    fn of(it: usize) -> Lays { Lays { x: LAYS[rot(it, 0, 7)], y: LAYS1[rot(it, 1, 4)], q: LAYS[rot(it, 3, 7)] } }
+    fn std() -> Lays { Lays { x: Lay::Std, y: Lay1::Std, q: Lay::Std } }
+    fn json(&self) -> String { format!("\"layout_x\": {}, \"layout_y\": {}, \"layout_q\": {},", jstr(self.x.name()), jstr(self.y.name()), jstr(self.q.name())) }
+    fn tags(&self, tags: &mut Vec<String>) {
+        tags.push(format!("layx_{}", self.x.name()));
+        tags.push(format!("layy_{}", self.y.name()));
+        tags.push(format!("layq_{}", self.q.name()));
+    }
+    fn bump(&self, out: &mut Out, stream: &str) {
+        out.bump(&format!("{}_layout_x_{}", stream, self.x.name()));
+        out.bump(&format!("{}_layout_y_{}", stream, self.y.name()));
+        out.bump(&format!("{}_layout_q_{}", stream, self.q.name()));
+    }
+}
+
+/// a 2-dimensional array holding `rows` logically, stored in the requested layout
+struct Laid2<T> { backing: Array2<T>, lay: Lay }
+impl<T: Clone> Laid2<T> {
+    fn new(rows: &[Vec<T>], d: usize, lay: Lay, junk: T) -> Laid2<T> {
+        let n = rows.len();
+        let at = |i: usize, j: usize| rows[i][j].clone();
+        let backing = match lay {
+            Lay::Std => Array2::from_shape_fn((n, d), |(i, j)| at(i, j)),
+            Lay::Fort => {
+                let mut v: Vec<T> = Vec::with_capacity(n * d);
+                for j in 0..d { for i in 0..n { v.push(at(i, j)); } }
+                Array2::from_shape_vec((n, d).f(), v).unwrap()
+            }
+            Lay::RevRowsV => Array2::from_shape_fn((n, d), |(i, j)| at(n - 1 - i, j)),
+            Lay::RevRowsO => Array2::from_shape_fn((n, d), |(i, j)| at(n - 1 - i, j)).slice(s![..;-1, ..]).to_owned(),
+            Lay::RevColsV => Array2::from_shape_fn((n, d), |(i, j)| at(i, d - 1 - j)),
+            Lay::RevColsO => Array2::from_shape_fn((n, d), |(i, j)| at(i, d - 1 - j)).slice(s![.., ..;-1]).to_owned(),
+            Lay::Stride2V => Array2::from_shape_fn((2 * n, 2 * d), |(i, j)| if i % 2 == 0 && j % 2 == 0 { at(i / 2, j / 2) } else { junk.clone() }),
+        };
+        Laid2 { backing, lay }
+    }
+    /// the array as handed to the library: owned data for the owned layouts, a view otherwise
+    fn cow(&self) -> CowArray<'_, T, Ix2> {
+        let a: CowArray<'_, T, Ix2> = match self.lay {
+            Lay::Std | Lay::Fort | Lay::RevRowsO | Lay::RevColsO => CowArray::from(self.backing.clone()),
+            Lay::RevRowsV => CowArray::from(self.backing.slice(s![..;-1, ..])),
+            Lay::RevColsV => CowArray::from(self.backing.slice(s![.., ..;-1])),
+            Lay::Stride2V => CowArray::from(self.backing.slice(s![..;2, ..;2])),
+        };
+        // the stride model of Lay::rows_contig must describe the real array
+        let (n, d) = a.dim();
+        if n > 0 {
+            assert_eq!(a.row(0).as_slice().is_some(), self.lay.rows_contig(n, d), "layout model: rows_contig of {:?} ({}, {})", self.lay, n, d);
+        }
+        a
+    }
+}
+struct Laid1<T> { backing: Array1<T>, lay: Lay1 }
+impl<T: Clone> Laid1<T> {
+    /// junk for the strided layout: the logical sequence reversed (valid values in the wrong places)
+    fn new(v: &[T], lay: Lay1) -> Laid1<T> {
+        let n = v.len();
+        let backing = match lay {
+            Lay1::Std => Array1::from(v.to_vec()),
+            Lay1::RevV => Array1::from_shape_fn(n, |i| v[n - 1 - i].clone()),
+            Lay1::RevO => Array1::from_shape_fn(n, |i| v[n - 1 - i].clone()).slice(s![..;-1]).to_owned(),
+            Lay1::Stride2V => Array1::from_shape_fn(2 * n, |i| if i % 2 == 0 { v[i / 2].clone() } else { v[n - 1 - i / 2].clone() }),
+        };
+        Laid1 { backing, lay }
+    }
+    fn cow(&self) -> CowArray<'_, T, Ix1> {
+        match self.lay {
+            Lay1::Std | Lay1::RevO => CowArray::from(self.backing.clone()),
+            Lay1::RevV => CowArray::from(self.backing.slice(s![..;-1])),
+            Lay1::Stride2V => CowArray::from(self.backing.slice(s![..;2])),
+        }
+    }
 }
 
 trait LabT: Ord + Clone + Default + std::fmt::Debug + Send + Sync + 'static {
@@ -101,9 +269,11 @@ struct BinOut {
     preds: Vec<String>,
 }
 
-fn fit_bin<C: LabT>(x: Array2<f64>, labels: Vec<C>, cfg: BinCfg, q: Array2<f64>) -> Result<BinOut, FitErr> {
+fn fit_bin<C: LabT>(x: Vec<Vec<f64>>, d: usize, labels: Vec<C>, cfg: BinCfg, q: Vec<Vec<f64>>, lays: Lays) -> Result<BinOut, FitErr> {
     run_guarded(move || {
-        let ds = DatasetBase::new(x, Array1::from(labels));
+        let (xl, yl, ql) = (Laid2::new(&x, d, lays.x, f64::NAN), Laid1::new(&labels, lays.y), Laid2::new(&q, d, lays.q, -3.25e5));
+        let q = ql.cow();
+        let ds = DatasetBase::new(xl.cow(), yl.cow());
         let mut p = LogisticRegression::default()
             .alpha(cfg.alpha)
             .with_intercept(cfg.icpt)
@@ -263,12 +433,12 @@ fn gen_queries(rng: &mut Sm64, x: &[Vec<f64>], d: usize, scales: &[f64], dir: &[
     q
 }
 
-fn bin_case_term(id: u64, labels: &[String], x: &[Vec<f64>], cfg: &BinCfg, err: u64, stat: bool, fit: Option<(&BinOut, &[Vec<f64>])>) -> String {
+fn bin_case_term(id: u64, labels: &[String], x: &[Vec<f64>], cfg: &BinCfg, err: u64, stat: bool, fit: Option<(&BinOut, &[Vec<f64>], Lay)>) -> String {
     let fit_s = match fit {
         None => "None".to_string(),
-        Some((f, q)) => format!(
-            "(Some {{| bf_w := {}; bf_b := {}; bf_pos := {}; bf_neg := {}; bf_thr := {}; bf_Q := {}; bf_exp := {}; bf_prob := {}; bf_pred := {} |}})",
-            cvec64(&f.w), sf64(f.b), f.pos, f.neg, sf64(f.thr), cmat64(q), cvec64(&f.exps), cvec64(&f.probs), clabs(&f.preds)
+        Some((f, q, ql)) => format!(
+            "(Some {{| bf_w := {}; bf_b := {}; bf_pos := {}; bf_neg := {}; bf_thr := {}; bf_qlay := {}; bf_Q := {}; bf_exp := {}; bf_prob := {}; bf_pred := {} |}})",
+            cvec64(&f.w), sf64(f.b), f.pos, f.neg, sf64(f.thr), ql.coq(), cmat64(q), cvec64(&f.exps), cvec64(&f.probs), clabs(&f.preds)
         ),
     };
     format!(
@@ -277,13 +447,12 @@ fn bin_case_term(id: u64, labels: &[String], x: &[Vec<f64>], cfg: &BinCfg, err: 
     )
 }
 
-fn call_bin(naming: &Naming, ids: &[usize], x: &[Vec<f64>], d: usize, cfg: &BinCfg, q: &[Vec<f64>]) -> Result<BinOut, FitErr> {
-    let xa = arr(x, d);
-    let qa = arr(q, d);
+fn call_bin(naming: &Naming, ids: &[usize], x: &[Vec<f64>], d: usize, cfg: &BinCfg, q: &[Vec<f64>], lays: Lays) -> Result<BinOut, FitErr> {
+    let (xa, qa) = (x.to_vec(), q.to_vec());
     match naming {
-        Naming::Bools(m) => fit_bin::<bool>(xa, ids.iter().map(|&i| m[i]).collect(), cfg.clone(), qa),
-        Naming::Nums(m) => fit_bin::<usize>(xa, ids.iter().map(|&i| m[i]).collect(), cfg.clone(), qa),
-        Naming::Strs(m) => fit_bin::<String>(xa, ids.iter().map(|&i| m[i].clone()).collect(), cfg.clone(), qa),
+        Naming::Bools(m) => fit_bin::<bool>(xa, d, ids.iter().map(|&i| m[i]).collect(), cfg.clone(), qa, lays),
+        Naming::Nums(m) => fit_bin::<usize>(xa, d, ids.iter().map(|&i| m[i]).collect(), cfg.clone(), qa, lays),
+        Naming::Strs(m) => fit_bin::<String>(xa, d, ids.iter().map(|&i| m[i].clone()).collect(), cfg.clone(), qa, lays),
     }
 }
 
@@ -301,7 +470,7 @@ fn err_what(e: &FitErr) -> String {
     match e {
         FitErr::Lib(c, s) => format!("fit returned an error on valid input (kind {}): {}", c, s),
         FitErr::Panic(s) => format!("fit panicked on valid input: {}", s),
-        FitErr::Hang => "fit did not terminate within 20 s on valid input".to_string(),
+        FitErr::Hang => format!("fit did not terminate within {} s on valid input", WATCHDOG_SECS.load(std::sync::atomic::Ordering::Relaxed)),
     }
 }
 
@@ -312,7 +481,7 @@ fn binary_stream(rng: &mut Sm64, out: &mut Out, id: &mut u64, count: usize, thor
         let d = if wide { *r.pick(&[8usize, 9, 11, 17]) } else { 1 + r.below(if thorough { 5 } else { 4 }) as usize };
         let scales: Vec<f64> = (0..d).map(|_| if wide { *r.pick(&[0.5, 1.0, 2.0]) } else { *r.pick(&SCALES) }).collect();
         let alpha = *r.pick(&ALPHAS);
-        let icpt = r.below(4) != 0;
+        let icpt = if scale_for("binary", it) == -20 { r.below(2) != 0 } else { r.below(4) != 0 };
         let tol = *r.pick(&[1e-2, 1e-3, 1e-4, 1e-4]);
         let core = alpha == 0.0 || r.chance(0.6);
         let n_extra = if core { r.below(28) as usize } else { 6 + r.below(28) as usize };
@@ -353,6 +522,14 @@ fn binary_stream(rng: &mut Sm64, out: &mut Out, id: &mut u64, count: usize, thor
             }
         }
         let n = x.len();
+        // layout and scale of this case: the same logical problem in other units (x s, alpha s^2, tol s) / other strides
+        let lays = Lays::of(it);
+        let k2 = scale_for("binary", it);
+        set_watchdog("binary", k2);
+        let s2 = 2f64.powi(k2);
+        let x: Vec<Vec<f64>> = x.iter().map(|row| row.iter().map(|v| v * s2).collect()).collect();
+        let scales: Vec<f64> = scales.iter().map(|v| v * s2).collect();
+        let (alpha0, alpha, tol) = (alpha, alpha * s2 * s2, tol * tol_unit(s2, icpt));
         let naming = gen_naming(&mut r, 2, true);
         let init = if r.chance(0.25) { Some((0..(d + icpt as usize)).map(|j| 0.3 * r.gauss() / if j < d { scales[j] } else { 1.0 }).collect()) } else { None };
         let thr_mode = r.below(8);
@@ -360,21 +537,28 @@ fn binary_stream(rng: &mut Sm64, out: &mut Out, id: &mut u64, count: usize, thor
         let labels = naming.coq_labels(&ids);
         // first fit to learn the direction of w for the extreme queries
         let q0 = vec![x[0].clone()];
-        let first = call_bin(&naming, &ids, &x, d, &cfg, &q0);
+        let first = call_bin(&naming, &ids, &x, d, &cfg, &q0, Lays { q: Lay::Std, ..lays });
         let stream = "binary";
+        let stat = stat_claimed("binary", k2, icpt, frob(&x));
         let extra = format!(
-            "\"labels\": {}, \"order_mode\": {}, \"core\": {}, \"init\": {}, \"thr_mode\": {}, \"scales\": {:?},",
-            jstr(naming.kind()), order_mode, core, cfg.init.is_some(), cfg.thr_mode, scales
+            "\"labels\": {}, \"order_mode\": {}, \"core\": {}, \"init\": {}, \"thr_mode\": {}, \"scales\": {:?}, \"scale_log2\": {}, \"stationarity_claimed\": {}, {}",
+            jstr(naming.kind()), order_mode, core, cfg.init.is_some(), cfg.thr_mode, scales, k2, stat, lays.json()
         );
         let desc = desc_common("LogisticRegression", stream, n, d, 2, alpha, icpt, tol, &extra, &x[0]);
         let mut tags: Vec<String> = vec!["binary".into(), format!("labels_{}", naming.kind())];
-        if alpha == 0.0 { tags.push("alpha0".into()); }
+        if alpha0 == 0.0 { tags.push("alpha0".into()); }
         if icpt { tags.push("icpt".into()); }
+        tags.push(scale_tag(k2));
+        if scale_out_of_range("binary", k2) { tags.push("scale_out_of_solver_range".into()); }
+        lays.tags(&mut tags);
+        if !stat { tags.push("stationarity_not_claimed".into()); out.bump("stationarity_not_claimed"); }
         let tagrefs: Vec<&str> = tags.iter().map(|s| s.as_str()).collect();
+        lays.bump(out, stream);
+        out.bump(&format!("{}_{}", stream, scale_tag(k2)));
         out.bump("binary_fits");
         out.bump(&format!("binary_labels_{}", naming.kind()));
         out.bump(&format!("binary_order_mode_{}", order_mode));
-        out.bump(&format!("alpha_{:e}", alpha));
+        out.bump(&format!("alpha_{:e}", alpha0));
         out.bump(&format!("binary_thr_mode_{}", cfg.thr_mode));
         let key = fnv_f64s(&x.concat(), fnv(format!("{:?}{:?}{}{}{}", ids, naming, alpha, icpt, tol).as_bytes()));
         match first {
@@ -384,13 +568,28 @@ fn binary_stream(rng: &mut Sm64, out: &mut Out, id: &mut u64, count: usize, thor
             }
             Ok(f0) => {
                 let q = gen_queries(&mut r, &x, d, &scales, &f0.w, &[1.0e3, -1.0e3, 7.3e3, -1.0e4, 40.0, -36.5]);
-                match call_bin(&naming, &ids, &x, d, &cfg, &q) {
+                match call_bin(&naming, &ids, &x, d, &cfg, &q, lays) {
                     Err(e) => {
                         out.rust_fail(*id, 1024, &tagrefs, &err_what(&e), &desc);
                         out.rust_eval(&desc, None);
                     }
                     Ok(f) => {
-                        let term = bin_case_term(*id, &labels, &x, &cfg, 0, true, Some((&f, &q)));
+                        if std::env::var("C12_DEBUG").is_ok() {
+                            let pos_id = match &naming { Naming::Bools(m) => m.iter().position(|v| v.coq() == f.pos), Naming::Nums(m) => m.iter().position(|v| v.coq() == f.pos), Naming::Strs(m) => m.iter().position(|v| v.coq() == f.pos) }.unwrap();
+                            let mut g = vec![0.0f64; d + 1];
+                            for (row, &c) in x.iter().zip(&ids) {
+                                let y = if c == pos_id { 1.0 } else { -1.0 };
+                                let z: f64 = row.iter().zip(&f.w).map(|(a, b)| a * b).sum::<f64>() + f.b;
+                                let phi = -y / (1.0 + (y * z).exp());
+                                for j in 0..d { g[j] += phi * row[j]; }
+                                g[d] += phi;
+                            }
+                            for j in 0..d { g[j] += alpha * f.w[j]; }
+                            if !icpt { g[d] = 0.0; }
+                            let gn = g.iter().map(|v| v * v).sum::<f64>().sqrt();
+                            eprintln!("f64 fit id={} n={} d={} scale=2^{} alpha0={} icpt={} stat={} tol={:e} |g|={:e} ratio={:.3}", *id, n, d, k2, alpha0, icpt, stat, tol, gn, gn / tol);
+                        }
+                        let term = bin_case_term(*id, &labels, &x, &cfg, 0, stat, Some((&f, &q, lays.q)));
                         out.case(*id, &term, &tagrefs, &desc, Some(key));
                     }
                 }
@@ -417,9 +616,6 @@ struct Bin32Out {
     preds: Vec<String>,
 }
 
-fn arr32(rows: &[Vec<f32>], d: usize) -> Array2<f32> {
-    Array2::from_shape_vec((rows.len(), d), rows.iter().flatten().cloned().collect()).unwrap()
-}
 fn cvec32(xs: &[f32]) -> String {
     clist(xs, |x| format!("b32 {}", cbits32(*x)))
 }
@@ -430,9 +626,11 @@ fn widen(rows: &[Vec<f32>]) -> Vec<Vec<f64>> {
     rows.iter().map(|r| r.iter().map(|v| *v as f64).collect()).collect()
 }
 
-fn fit_bin32<C: LabT>(x: Array2<f32>, labels: Vec<C>, cfg: BinCfg, q: Array2<f32>) -> Result<Bin32Out, FitErr> {
+fn fit_bin32<C: LabT>(x: Vec<Vec<f32>>, d: usize, labels: Vec<C>, cfg: BinCfg, q: Vec<Vec<f32>>, lays: Lays) -> Result<Bin32Out, FitErr> {
     run_guarded(move || {
-        let ds = DatasetBase::new(x, Array1::from(labels));
+        let (xl, yl, ql) = (Laid2::new(&x, d, lays.x, f32::NAN), Laid1::new(&labels, lays.y), Laid2::new(&q, d, lays.q, -3.25e5f32));
+        let q = ql.cow();
+        let ds = DatasetBase::new(xl.cow(), yl.cow());
         let mut p = LogisticRegression::<f32>::default()
             .alpha(cfg.alpha as f32)
             .with_intercept(cfg.icpt)
@@ -476,13 +674,12 @@ fn fit_bin32<C: LabT>(x: Array2<f32>, labels: Vec<C>, cfg: BinCfg, q: Array2<f32
     })
 }
 
-fn call_bin32(naming: &Naming, ids: &[usize], x: &[Vec<f32>], d: usize, cfg: &BinCfg, q: &[Vec<f32>]) -> Result<Bin32Out, FitErr> {
-    let xa = arr32(x, d);
-    let qa = arr32(q, d);
+fn call_bin32(naming: &Naming, ids: &[usize], x: &[Vec<f32>], d: usize, cfg: &BinCfg, q: &[Vec<f32>], lays: Lays) -> Result<Bin32Out, FitErr> {
+    let (xa, qa) = (x.to_vec(), q.to_vec());
     match naming {
-        Naming::Bools(m) => fit_bin32::<bool>(xa, ids.iter().map(|&i| m[i]).collect(), cfg.clone(), qa),
-        Naming::Nums(m) => fit_bin32::<usize>(xa, ids.iter().map(|&i| m[i]).collect(), cfg.clone(), qa),
-        Naming::Strs(m) => fit_bin32::<String>(xa, ids.iter().map(|&i| m[i].clone()).collect(), cfg.clone(), qa),
+        Naming::Bools(m) => fit_bin32::<bool>(xa, d, ids.iter().map(|&i| m[i]).collect(), cfg.clone(), qa, lays),
+        Naming::Nums(m) => fit_bin32::<usize>(xa, d, ids.iter().map(|&i| m[i]).collect(), cfg.clone(), qa, lays),
+        Naming::Strs(m) => fit_bin32::<String>(xa, d, ids.iter().map(|&i| m[i].clone()).collect(), cfg.clone(), qa, lays),
     }
 }
 
@@ -509,7 +706,7 @@ fn binary32_stream(rng: &mut Sm64, out: &mut Out, id: &mut u64, count: usize) {
         let d = if wide { *r.pick(&[8usize, 9, 12]) } else { 1 + r.below(3) as usize };
         let scales: Vec<f64> = (0..d).map(|_| if wide { *r.pick(&[0.5, 1.0, 2.0]) } else { *r.pick(&[0.1, 1.0, 1.0, 10.0]) }).collect();
         let alpha = *r.pick(&ALPHAS);
-        let icpt = r.below(4) != 0;
+        let icpt = if scale_for("binary_f32", it) == -20 { r.below(2) != 0 } else { r.below(4) != 0 };
         let tol = *r.pick(&[1e-2, 1e-3]);
         let core = alpha == 0.0 || r.chance(0.6);
         let n_extra = if core { r.below(24) as usize } else { 6 + r.below(24) as usize };
@@ -537,24 +734,40 @@ fn binary32_stream(rng: &mut Sm64, out: &mut Out, id: &mut u64, count: usize) {
             }
         }
         let n = x.len();
+        let lays = Lays::of(it);
+        let k2 = scale_for("binary_f32", it);
+        set_watchdog("binary_f32", k2);
+        let s2 = 2f64.powi(k2);
+        let x: Vec<Vec<f32>> = x.iter().map(|row| row.iter().map(|v| v * s2 as f32).collect()).collect();
+        let scales: Vec<f64> = scales.iter().map(|v| v * s2).collect();
+        let alpha0 = alpha;
+        // the f32 hyper-parameters first, then their exact power-of-two rescaling
+        let (alpha, tol) = (((alpha as f32) as f64) * s2 * s2, ((tol as f32) as f64) * tol_unit(s2, icpt));
         let naming = gen_naming(&mut r, 2, true);
         let thr_mode = r.below(8);
         let cfg = BinCfg { alpha: (alpha as f32) as f64, icpt, tol: (tol as f32) as f64, maxit: 2000, init: None, thr_mode,
                            thr_val: *r.pick(&[0.05, 0.25, 0.75, 0.999, 1e-30, 1e-45]) };
         let labels = naming.coq_labels(&ids);
-        let extra = format!("\"float\": \"f32\", \"labels\": {}, \"order_mode\": {}, \"core\": {}, \"thr_mode\": {}, \"scales\": {:?},", jstr(naming.kind()), order_mode, core, thr_mode, scales);
+        let stat = stat_claimed("binary_f32", k2, icpt, frob(&x));
+        let extra = format!("\"float\": \"f32\", \"labels\": {}, \"order_mode\": {}, \"core\": {}, \"thr_mode\": {}, \"scales\": {:?}, \"scale_log2\": {}, \"stationarity_claimed\": {}, {}", jstr(naming.kind()), order_mode, core, thr_mode, scales, k2, stat, lays.json());
         let x0: Vec<f64> = x[0].iter().map(|v| *v as f64).collect();
         let desc = desc_common("LogisticRegression<f32>", "binary_f32", n, d, 2, cfg.alpha, icpt, cfg.tol, &extra, &x0);
         let mut tags: Vec<String> = vec!["binary".into(), "f32".into(), format!("labels_{}", naming.kind())];
-        if alpha == 0.0 { tags.push("alpha0".into()); }
+        if alpha0 == 0.0 { tags.push("alpha0".into()); }
         if icpt { tags.push("icpt".into()); }
+        tags.push(scale_tag(k2));
+        if scale_out_of_range("binary_f32", k2) { tags.push("scale_out_of_solver_range".into()); }
+        lays.tags(&mut tags);
+        if !stat { tags.push("stationarity_not_claimed".into()); out.bump("stationarity_not_claimed"); }
         let tagrefs: Vec<&str> = tags.iter().map(|s| s.as_str()).collect();
+        lays.bump(out, "binary_f32");
+        out.bump(&format!("binary_f32_{}", scale_tag(k2)));
         out.bump("binary_f32_fits");
         out.bump(&format!("binary_f32_thr_mode_{}", thr_mode));
         out.bump(&format!("binary_f32_order_mode_{}", order_mode));
         let key = fnv_f64s(&widen(&x).concat(), fnv(format!("f32{:?}{:?}{}{}{}", ids, naming, alpha, icpt, tol).as_bytes()));
         let q0 = vec![x[0].clone()];
-        match call_bin32(&naming, &ids, &x, d, &cfg, &q0) {
+        match call_bin32(&naming, &ids, &x, d, &cfg, &q0, Lays { q: Lay::Std, ..lays }) {
             Err(e) => {
                 out.rust_fail(*id, 1024, &tagrefs, &err_what(&e), &desc);
                 out.rust_eval(&desc, None);
@@ -563,7 +776,7 @@ fn binary32_stream(rng: &mut Sm64, out: &mut Out, id: &mut u64, count: usize) {
                 let w64: Vec<f64> = f0.w.iter().map(|v| *v as f64).collect();
                 let q64 = gen_queries(&mut r, &widen(&x), d, &scales, &w64, &[1.0e3, -1.0e3, 20.0, -17.5, 90.0, -104.0]);
                 let q: Vec<Vec<f32>> = q64.iter().map(|row| row.iter().map(|v| *v as f32).collect()).collect();
-                match call_bin32(&naming, &ids, &x, d, &cfg, &q) {
+                match call_bin32(&naming, &ids, &x, d, &cfg, &q, lays) {
                     Err(e) => {
                         out.rust_fail(*id, 1024, &tagrefs, &err_what(&e), &desc);
                         out.rust_eval(&desc, None);
@@ -582,9 +795,9 @@ fn binary32_stream(rng: &mut Sm64, out: &mut Out, id: &mut u64, count: usize) {
                         }
                         let w64: Vec<f64> = f.w.iter().map(|v| *v as f64).collect();
                         let term = format!(
-                            "CBin32 {} {{| b3c_labels := {}; b3c_X := {}; b3c_alpha := {}; b3c_icpt := {}; b3c_tol := {}; b3c_tol_eff := {}; b3c_stat := {}; b3c_fit := {{| b3_w := {}; b3_b := b32 {}; b3_pos := {}; b3_neg := {}; b3_thr := b32 {}; b3_Q := {}; b3_exp := {}; b3_prob := {}; b3_pred := {}; b3_w64 := {}; b3_b64 := {} |}} |}}",
-                            cn(*id), clabs(&labels), cmat64(&widen(&x)), sf64(cfg.alpha), cbool(icpt), sf64(cfg.tol), sf64(tol_eff), cbool(true),
-                            cvec32(&f.w), cbits32(f.b), f.pos, f.neg, cbits32(f.thr), cmat32(&q), cvec32(&f.exps), cvec32(&f.probs), clabs(&f.preds),
+                            "CBin32 {} {{| b3c_labels := {}; b3c_X := {}; b3c_alpha := {}; b3c_icpt := {}; b3c_tol := {}; b3c_tol_eff := {}; b3c_stat := {}; b3c_fit := {{| b3_w := {}; b3_b := b32 {}; b3_pos := {}; b3_neg := {}; b3_thr := b32 {}; b3_qlay := {}; b3_Q := {}; b3_exp := {}; b3_prob := {}; b3_pred := {}; b3_w64 := {}; b3_b64 := {} |}} |}}",
+                            cn(*id), clabs(&labels), cmat64(&widen(&x)), sf64(cfg.alpha), cbool(icpt), sf64(cfg.tol), sf64(tol_eff), cbool(stat),
+                            cvec32(&f.w), cbits32(f.b), f.pos, f.neg, cbits32(f.thr), lays.q.coq(), cmat32(&q), cvec32(&f.exps), cvec32(&f.probs), clabs(&f.preds),
                             cvec64(&w64), sf64(f.b as f64)
                         );
                         out.case(*id, &term, &tagrefs, &desc, Some(key));
@@ -619,9 +832,11 @@ struct MultiCfg {
     init: Option<Vec<Vec<f64>>>,
 }
 
-fn fit_multi<C: LabT>(x: Array2<f64>, labels: Vec<C>, cfg: MultiCfg, q: Array2<f64>) -> Result<MultiOut, FitErr> {
+fn fit_multi<C: LabT>(x: Vec<Vec<f64>>, d: usize, labels: Vec<C>, cfg: MultiCfg, q: Vec<Vec<f64>>, lays: Lays) -> Result<MultiOut, FitErr> {
     run_guarded(move || {
-        let ds = DatasetBase::new(x, Array1::from(labels));
+        let (xl, yl, ql) = (Laid2::new(&x, d, lays.x, f64::NAN), Laid1::new(&labels, lays.y), Laid2::new(&q, d, lays.q, -3.25e5));
+        let q = ql.cow();
+        let ds = DatasetBase::new(xl.cow(), yl.cow());
         let mut p = MultiLogisticRegression::default()
             .alpha(cfg.alpha)
             .with_intercept(cfg.icpt)
@@ -653,13 +868,12 @@ fn fit_multi<C: LabT>(x: Array2<f64>, labels: Vec<C>, cfg: MultiCfg, q: Array2<f
     })
 }
 
-fn call_multi(naming: &Naming, ids: &[usize], x: &[Vec<f64>], d: usize, cfg: &MultiCfg, q: &[Vec<f64>]) -> Result<MultiOut, FitErr> {
-    let xa = arr(x, d);
-    let qa = arr(q, d);
+fn call_multi(naming: &Naming, ids: &[usize], x: &[Vec<f64>], d: usize, cfg: &MultiCfg, q: &[Vec<f64>], lays: Lays) -> Result<MultiOut, FitErr> {
+    let (xa, qa) = (x.to_vec(), q.to_vec());
     match naming {
-        Naming::Bools(m) => fit_multi::<bool>(xa, ids.iter().map(|&i| m[i]).collect(), cfg.clone(), qa),
-        Naming::Nums(m) => fit_multi::<usize>(xa, ids.iter().map(|&i| m[i]).collect(), cfg.clone(), qa),
-        Naming::Strs(m) => fit_multi::<String>(xa, ids.iter().map(|&i| m[i].clone()).collect(), cfg.clone(), qa),
+        Naming::Bools(m) => fit_multi::<bool>(xa, d, ids.iter().map(|&i| m[i]).collect(), cfg.clone(), qa, lays),
+        Naming::Nums(m) => fit_multi::<usize>(xa, d, ids.iter().map(|&i| m[i]).collect(), cfg.clone(), qa, lays),
+        Naming::Strs(m) => fit_multi::<String>(xa, d, ids.iter().map(|&i| m[i].clone()).collect(), cfg.clone(), qa, lays),
     }
 }
 
@@ -678,7 +892,7 @@ fn multi_stream(rng: &mut Sm64, out: &mut Out, id: &mut u64, count: usize, thoro
         let k = if rowspread { 2 + r.below(2) as usize } else { 2 + r.below(5) as usize };
         let d = if rowspread { 1 + r.below(2) as usize } else { 1 + r.below(3) as usize };
         let alpha = if rowspread { *r.pick(&[0.0, 1e-3, 1e-3, 1.0]) } else { *r.pick(&ALPHAS) };
-        let icpt = if rowspread { r.chance(0.3) } else { r.below(4) != 0 };
+        let icpt = if rowspread { r.chance(0.3) } else { if scale_for("multi", it) == -20 { r.below(2) != 0 } else { r.below(4) != 0 } };
         let tol = *r.pick(&[1e-2, 1e-3, 1e-4, 1e-4]);
         // conditioning: with an intercept column the features stay within a factor ~10 of 1; without one a common
         // scale 1e-2..1e1 is harmless (L-BFGS on (d+1)*k > 10 unknowns converges too slowly otherwise: the gradient
@@ -720,6 +934,13 @@ fn multi_stream(rng: &mut Sm64, out: &mut Out, id: &mut u64, count: usize, thoro
         r.shuffle(&mut perm);
         let x = permute(&data.x, &perm);
         let ids = permute(&data.ids, &perm);
+        let lays = Lays::of(it);
+        let k2 = scale_for("multi", it);
+        set_watchdog("multi", k2);
+        let s2 = 2f64.powi(k2);
+        let x: Vec<Vec<f64>> = x.iter().map(|row| row.iter().map(|v| v * s2).collect()).collect();
+        let scales: Vec<f64> = scales.iter().map(|v| v * s2).collect();
+        let (alpha0, alpha, tol) = (alpha, alpha * s2 * s2, tol * tol_unit(s2, icpt));
         let naming = gen_naming(&mut r, k, true);
         let init = if r.chance(0.2) {
             Some((0..(d + icpt as usize)).map(|j| (0..k).map(|_| 0.2 * r.gauss() / if j < d { scales[j] } else { 1.0 }).collect()).collect())
@@ -729,18 +950,25 @@ fn multi_stream(rng: &mut Sm64, out: &mut Out, id: &mut u64, count: usize, thoro
         let cfg = MultiCfg { alpha, icpt, tol, maxit: 5000, init };
         let labels = naming.coq_labels(&ids);
         let stream = if rowspread { "multi_rowspread" } else { "multi" };
-        let extra = format!("\"labels\": {}, \"core\": {}, \"init\": {}, \"scales\": {:?},", jstr(naming.kind()), core, cfg.init.is_some(), scales);
+        let stat = stat_claimed("multi", k2, icpt, frob(&x));
+        let extra = format!("\"labels\": {}, \"core\": {}, \"init\": {}, \"scales\": {:?}, \"scale_log2\": {}, \"stationarity_claimed\": {}, {}", jstr(naming.kind()), core, cfg.init.is_some(), scales, k2, stat, lays.json());
         let desc = desc_common("MultiLogisticRegression", stream, n, d, k, alpha, icpt, tol, &extra, &x[0]);
         let mut tags: Vec<String> = vec!["multi".into(), format!("labels_{}", naming.kind())];
         if rowspread { tags.push("multi_row_spread_gt34".into()); }
-        if alpha == 0.0 { tags.push("alpha0".into()); }
+        if alpha0 == 0.0 { tags.push("alpha0".into()); }
+        tags.push(scale_tag(k2));
+        if scale_out_of_range("multi", k2) { tags.push("scale_out_of_solver_range".into()); }
+        lays.tags(&mut tags);
+        if !stat { tags.push("stationarity_not_claimed".into()); out.bump("stationarity_not_claimed"); }
         let tagrefs: Vec<&str> = tags.iter().map(|s| s.as_str()).collect();
+        lays.bump(out, "multi");
+        out.bump(&format!("multi_{}", scale_tag(k2)));
         out.bump(&format!("{}_fits", stream));
         out.bump(&format!("multi_k_{}", k));
         out.bump(&format!("multi_labels_{}", naming.kind()));
         let key = fnv_f64s(&x.concat(), fnv(format!("m{:?}{:?}{}{}{}", ids, naming, alpha, icpt, tol).as_bytes()));
         let q0 = vec![x[0].clone()];
-        match call_multi(&naming, &ids, &x, d, &cfg, &q0) {
+        match call_multi(&naming, &ids, &x, d, &cfg, &q0, Lays { q: Lay::Std, ..lays }) {
             Err(e) => {
                 out.rust_fail(*id, 1024, &tagrefs, &err_what(&e), &desc);
                 out.rust_eval(&desc, None);
@@ -753,7 +981,7 @@ fn multi_stream(rng: &mut Sm64, out: &mut Out, id: &mut u64, count: usize, thoro
                 let maxs = (0..k).map(|c| (0..d).map(|j| dir0[j] * f0.w[j][c]).sum::<f64>().abs()).fold(0.0f64, f64::max);
                 let dir: Vec<f64> = if maxs > 0.0 { dir0.iter().map(|v| v * maxs / n2).collect() } else { vec![0.0; d] };
                 let q = gen_queries(&mut r, &x, d, &scales, &dir, &[1.0e3, -2.5e3, 1.0e4, 37.0]);
-                match call_multi(&naming, &ids, &x, d, &cfg, &q) {
+                match call_multi(&naming, &ids, &x, d, &cfg, &q, lays) {
                     Err(e) => {
                         out.rust_fail(*id, 1024, &tagrefs, &err_what(&e), &desc);
                         out.rust_eval(&desc, None);
@@ -762,7 +990,7 @@ fn multi_stream(rng: &mut Sm64, out: &mut Out, id: &mut u64, count: usize, thoro
                         let rowmax: Vec<f64> = x.iter().map(|row| (0..k).map(|c| (0..d).map(|j| row[j] * f.w[j][c]).sum::<f64>() + f.b[c]).fold(f64::MIN, f64::max)).collect();
                         let spread = rowmax.iter().cloned().fold(f64::MIN, f64::max) - rowmax.iter().cloned().fold(f64::MAX, f64::min);
                         if spread > 34.5 { out.bump("multi_fitted_row_spread_gt_34.5"); }
-                        let term = multi_case_term(*id, &labels, &x, &cfg, true, &f, &q);
+                        let term = multi_case_term(*id, &labels, &x, &cfg, stat, &f, &q);
                         out.case(*id, &term, &tagrefs, &desc, Some(key));
                     }
                 }
@@ -814,9 +1042,11 @@ fn glm_err_code(e: &linfa_linear::LinearError<f64>) -> u64 {
     }
 }
 
-fn fit_glm(x: Array2<f64>, y: Vec<f64>, cfg: GlmCfg, q: Array2<f64>) -> Result<GlmOut, FitErr> {
+fn fit_glm(x: Vec<Vec<f64>>, d: usize, y: Vec<f64>, cfg: GlmCfg, q: Vec<Vec<f64>>, lays: Lays) -> Result<GlmOut, FitErr> {
     run_guarded(move || {
-        let ds = DatasetBase::new(x, Array1::from(y));
+        let (xl, yl, ql) = (Laid2::new(&x, d, lays.x, f64::NAN), Laid1::new(&y, lays.y), Laid2::new(&q, d, lays.q, -3.25e5));
+        let q = ql.cow();
+        let ds = DatasetBase::new(xl.cow(), yl.cow());
         let mut p = TweedieRegressor::params()
             .power(cfg.power)
             .alpha(cfg.alpha)
@@ -838,12 +1068,12 @@ fn fit_glm(x: Array2<f64>, y: Vec<f64>, cfg: GlmCfg, q: Array2<f64>) -> Result<G
     })
 }
 
-fn glm_case_term(id: u64, cfg: &GlmCfg, x: &[Vec<f64>], y: &[f64], err: u64, stat: bool, fit: Option<(&GlmOut, &[Vec<f64>])>) -> String {
+fn glm_case_term(id: u64, cfg: &GlmCfg, x: &[Vec<f64>], y: &[f64], err: u64, stat: bool, fit: Option<(&GlmOut, &[Vec<f64>], Lay)>) -> String {
     let fit_s = match fit {
         None => "None".to_string(),
-        Some((f, q)) => format!(
-            "(Some {{| gf_w := {}; gf_b := {}; gf_Q := {}; gf_exp := {}; gf_pred := {} |}})",
-            cvec64(&f.w), sf64(f.b), cmat64(q), cvec64(&f.exps), cvec64(&f.preds)
+        Some((f, q, ql)) => format!(
+            "(Some {{| gf_w := {}; gf_b := {}; gf_qlay := {}; gf_Q := {}; gf_exp := {}; gf_pred := {} |}})",
+            cvec64(&f.w), sf64(f.b), ql.coq(), cmat64(q), cvec64(&f.exps), cvec64(&f.preds)
         ),
     };
     let link_s = match cfg.link { None => "None".to_string(), Some(l) => format!("(Some {})", link_name(l)) };
@@ -898,25 +1128,39 @@ fn glm_stream(rng: &mut Sm64, out: &mut Out, id: &mut u64, count: usize, thoroug
             _ => if p == 0.0 { Some(Link::Identity) } else { Some(Link::Log) },
         };
         let alpha = *r.pick(&ALPHAS);
-        let icpt = r.below(4) != 0;
+        let icpt = if scale_for("glm", it) == -20 { r.below(2) != 0 } else { r.below(4) != 0 };
         let tol = *r.pick(&[1e-3, 1e-4, 1e-5]);
+        let lays = Lays::of(it);
+        let k2 = scale_for("glm", it);
+        set_watchdog("glm", k2);
+        let s2 = 2f64.powi(k2);
+        let (alpha0, alpha, tol) = (alpha, alpha * s2 * s2, tol * tol_unit(s2, icpt));
+        let _ = alpha0;
         let cfg = GlmCfg { power: p, link: link_opt, alpha, icpt, tol, maxit: 1000 };
         let link = eff_link(&cfg);
         let d = 1 + r.below(3) as usize;
         // without a penalty the optimum must exist and be well determined: keep n comfortably above the number of unknowns
         let n = (if alpha == 0.0 { 5 * (d + 1) } else { d + 3 }) + r.below(if thorough { 40 } else { 28 }) as usize;
         let (x, y) = gen_glm_data(&mut r, p, link, d, n);
+        let x: Vec<Vec<f64>> = x.iter().map(|row| row.iter().map(|v| v * s2).collect()).collect();
         let stream = "glm";
-        let extra = format!("\"power\": {}, \"link\": {}, \"link_explicit\": {}, \"y_first\": {:?},", p, jstr(link_name(link)), link_opt.is_some(), &y[..2.min(y.len())]);
+        let stat = stat_claimed("glm", k2, icpt, frob(&x));
+        let extra = format!("\"power\": {}, \"link\": {}, \"link_explicit\": {}, \"y_first\": {:?}, \"scale_log2\": {}, \"stationarity_claimed\": {}, {}", p, jstr(link_name(link)), link_opt.is_some(), &y[..2.min(y.len())], k2, stat, lays.json());
         let desc = desc_common("TweedieRegressor", stream, n, d, 0, alpha, icpt, tol, &extra, &x[0]);
-        let tags: Vec<String> = vec!["glm".into(), format!("power_{}", p), format!("link_{}", link_name(link))];
+        let mut tags: Vec<String> = vec!["glm".into(), format!("power_{}", p), format!("link_{}", link_name(link))];
+        tags.push(scale_tag(k2));
+        if scale_out_of_range("glm", k2) { tags.push("scale_out_of_solver_range".into()); }
+        lays.tags(&mut tags);
+        if !stat { tags.push("stationarity_not_claimed".into()); out.bump("stationarity_not_claimed"); }
         let tagrefs: Vec<&str> = tags.iter().map(|s| s.as_str()).collect();
+        lays.bump(out, "glm");
+        out.bump(&format!("glm_{}", scale_tag(k2)));
         out.bump("glm_fits");
         out.bump(&format!("glm_power_{}", p));
         out.bump(&format!("glm_link_{}", link_name(link)));
         let key = fnv_f64s(&[x.concat(), y.clone()].concat(), fnv(format!("g{}{:?}{}{}{}", p, link_opt, alpha, icpt, tol).as_bytes()));
         let q0 = vec![x[0].clone()];
-        match fit_glm(arr(&x, d), y.clone(), cfg.clone(), arr(&q0, d)) {
+        match fit_glm(x.clone(), d, y.clone(), cfg.clone(), q0.clone(), Lays { q: Lay::Std, ..lays }) {
             Err(e) => {
                 out.rust_fail(*id, 1024, &tagrefs, &err_what(&e), &desc);
                 out.rust_eval(&desc, None);
@@ -925,14 +1169,14 @@ fn glm_stream(rng: &mut Sm64, out: &mut Out, id: &mut u64, count: usize, thoroug
                 let big: &[f64] = match link { Link::Log => &[300.0, -300.0, 650.0, -700.0], _ => &[1.0e3, -1.0e3, 7.0e3, -36.8] };
                 // move the intercept out of the way: x . w = t - b
                 let bigs: Vec<f64> = big.iter().map(|t| t - f0.b).collect();
-                let q = gen_queries(&mut r, &x, d, &vec![1.0; d], &f0.w, &bigs);
-                match fit_glm(arr(&x, d), y.clone(), cfg.clone(), arr(&q, d)) {
+                let q = gen_queries(&mut r, &x, d, &vec![s2; d], &f0.w, &bigs);
+                match fit_glm(x.clone(), d, y.clone(), cfg.clone(), q.clone(), lays) {
                     Err(e) => {
                         out.rust_fail(*id, 1024, &tagrefs, &err_what(&e), &desc);
                         out.rust_eval(&desc, None);
                     }
                     Ok(f) => {
-                        let term = glm_case_term(*id, &cfg, &x, &y, 0, true, Some((&f, &q)));
+                        let term = glm_case_term(*id, &cfg, &x, &y, 0, stat, Some((&f, &q, lays.q)));
                         out.case(*id, &term, &tagrefs, &desc, Some(key));
                     }
                 }
@@ -954,6 +1198,9 @@ fn malformed_stream(rng: &mut Sm64, out: &mut Out, id: &mut u64, count: usize) {
         let x: Vec<Vec<f64>> = (0..n).map(|_| (0..d).map(|_| r.gauss()).collect()).collect();
         let cfgb = BinCfg { alpha: 1.0, icpt: true, tol: 1e-4, maxit: 100, init: None, thr_mode: 0, thr_val: 0.5 };
         let q = vec![x[0].clone()];
+        let lays = Lays { q: Lay::Std, ..Lays::of(it / 8 + it) };
+        lays.bump(out, "malformed");
+        set_watchdog("malformed", 0);
         match it % 8 {
             0 | 1 | 2 => {
                 // binary model: one class / three or more classes (interleaved so that the third class appears late or early)
@@ -973,7 +1220,7 @@ fn malformed_stream(rng: &mut Sm64, out: &mut Out, id: &mut u64, count: usize) {
                 }
                 let distinct = { let mut v = ids.clone(); v.sort(); v.dedup(); v.len() };
                 let labels = naming.coq_labels(&ids);
-                let res = call_bin(&naming, &ids, &x, d, &cfgb, &q);
+                let res = call_bin(&naming, &ids, &x, d, &cfgb, &q, lays);
                 let desc = format!("{{\"model\": \"LogisticRegression\", \"stream\": \"malformed_classes\", \"distinct_classes\": {}, \"n\": {}, \"class_ids\": {:?}}}", distinct, n, ids);
                 out.bump("malformed_binary_class_count");
                 let code = match &res { Err(FitErr::Lib(c, _)) => *c, Ok(_) => 0, _ => 99 };
@@ -1003,9 +1250,8 @@ fn malformed_stream(rng: &mut Sm64, out: &mut Out, id: &mut u64, count: usize) {
                 };
                 let desc = format!("{{\"model\": \"LogisticRegression\", \"stream\": \"malformed_data\", \"kind\": {}, \"n\": {}, \"d\": {}}}", sub, n, d);
                 out.bump("malformed_binary_data");
-                let xa = arr(&xx, d);
                 let lab: Vec<usize> = idv.clone();
-                let res = fit_bin::<usize>(xa, lab, cfg, arr(&q, d));
+                let res = fit_bin::<usize>(xx.clone(), d, lab, cfg, q.clone(), lays);
                 let code = match &res { Err(FitErr::Lib(c, _)) => *c, Ok(_) => 0, _ => 99 };
                 if code != want {
                     out.rust_fail(*id, 2048, &["malformed", "data"], &format!("expected error kind {} got {} ({:?})", want, code, res.as_ref().err()), &desc);
@@ -1027,14 +1273,14 @@ fn malformed_stream(rng: &mut Sm64, out: &mut Out, id: &mut u64, count: usize) {
                 if p <= 0.0 { y[0] = -1.0 - r.unit(); }
                 let xs: Vec<Vec<f64>> = x.iter().map(|row| row.iter().map(|v| 0.3 * v.max(-2.0).min(2.0)).collect()).collect();
                 let cfg = GlmCfg { power: p, link: None, alpha: 1.0, icpt: true, tol: 1e-4, maxit: 200 };
-                let res = fit_glm(arr(&xs, d), y.clone(), cfg.clone(), arr(&q, d));
+                let res = fit_glm(xs.clone(), d, y.clone(), cfg.clone(), q.clone(), lays);
                 let desc = format!("{{\"model\": \"TweedieRegressor\", \"stream\": \"malformed_glm\", \"power\": {}, \"bad_target\": {}, \"at\": {}, \"n\": {}, \"expect_error_kind\": {}}}", p, ybad, pos, n, want);
                 out.bump(&format!("malformed_glm_expect_{}", want));
                 let tags = ["malformed", "glm_support"];
                 match res {
                     Ok(f) => {
                         let qq: Vec<Vec<f64>> = vec![q[0].clone()];
-                        let term = glm_case_term(*id, &cfg, &xs, &y, 0, false, Some((&f, &qq)));
+                        let term = glm_case_term(*id, &cfg, &xs, &y, 0, false, Some((&f, &qq, Lay::Std)));
                         out.case(*id, &term, &tags, &desc, Some(fnv(desc.as_bytes())));
                     }
                     Err(FitErr::Lib(c, _)) if c == 1 || c == 2 => {
@@ -1063,6 +1309,11 @@ fn main() {
     let mut out = Out::new(&args.out, args.shards, "C12.Corr", "case", args.only);
     let mut id: u64 = 0;
     let (nb, nm, ng, nx) = if thorough { (700, 450, 600, 240) } else { (110, 70, 96, 48) };
+    // experiments only: C12_STREAMS=binary,multi,... restricts the streams, C12_WATCHDOG=<s> shortens the watchdog
+    let streams = std::env::var("C12_STREAMS").unwrap_or_else(|_| "binary,multi,glm,malformed,binary_f32".to_string());
+    let on = |name: &str| streams.split(',').any(|t| t == name);
+    if let Ok(v) = std::env::var("C12_WATCHDOG") { WATCHDOG_SECS.store(v.parse().unwrap(), std::sync::atomic::Ordering::Relaxed); }
+    let (nb, nm, ng, nx) = (if on("binary") { nb } else { 0 }, if on("multi") { nm } else { 0 }, if on("glm") { ng } else { 0 }, if on("malformed") { nx } else { 0 });
     let mut r1 = rng.fork();
     binary_stream(&mut r1, &mut out, &mut id, nb, thorough);
     let mut r2 = rng.fork();
@@ -1076,7 +1327,7 @@ fn main() {
     malformed_stream(&mut r4, &mut out, &mut id, nx);
     let mut r5 = rng.fork();
     id = 400_000;
-    binary32_stream(&mut r5, &mut out, &mut id, if thorough { 300 } else { 48 });
-    out.finish("binary: 2-class data (core of d+1 points carrying both classes when alpha = 0, noisy linear labels, per-feature scales 1e-2..1e2, class balance, sample order incl. minority/majority first and exact count ties, bool/usize/String labels with adversarial naming, optional initial parameters) x alpha {0,1e-3,1,100} x intercept x tolerance; binary_f32: LogisticRegression<f32> on the same families (scales 0.1..10, tolerance 1e-2 / 1e-3, start at zero), held to max(tolerance, 8 x the f32 cost resolution floor); decision thresholds 0.5, 0, 1, 0.3, the probability of the first query and its neighbouring floats, tiny / subnormal values; multinomial: 2..6 classes likewise (well-conditioned feature scales) plus the row-spread family of finding F37; GLM: powers {0,1,1.2,1.5,2,3} x links x alpha x intercept with targets in range and |x| <= 1; malformed: class-count errors, shape / non-finite / initial-parameter errors, GLM support violations and border values; queries include stored rows, fresh rows, the origin and rows with |x.w| up to 1e4; non-trivial = every successfully fitted case; distinct = hashes of (data, labels, configuration)");
+    binary32_stream(&mut r5, &mut out, &mut id, if !on("binary_f32") { 0 } else if thorough { 300 } else { 48 });
+    out.finish("binary: 2-class data (core of d+1 points carrying both classes when alpha = 0, noisy linear labels, per-feature scales 1e-2..1e2, class balance, sample order incl. minority/majority first and exact count ties, bool/usize/String labels with adversarial naming, optional initial parameters) x alpha {0,1e-3,1,100} x intercept x tolerance; binary_f32: LogisticRegression<f32> on the same families (scales 0.1..10, tolerance 1e-2 / 1e-3, start at zero), held to max(tolerance, 8 x the f32 cost resolution floor); decision thresholds 0.5, 0, 1, 0.3, the probability of the first query and its neighbouring floats, tiny / subnormal values; multinomial: 2..6 classes likewise (well-conditioned feature scales) plus the row-spread family of finding F37; GLM: powers {0,1,1.2,1.5,2,3} x links x alpha x intercept with targets in range and |x| <= 1; malformed: class-count errors, shape / non-finite / initial-parameter errors, GLM support violations and border values; every fitted case presents the same logical records / targets / query batch in a rotating memory layout (records and queries: row-major, column-major, reversed rows / reversed columns as view and as owned copy, step-2 slice of a (2n, 2d) array; targets: standard, reversed view / owned, step-2 slice) and in a rotating power-of-two feature unit (x 2^k, alpha 2^2k, tolerance in gradient units; k in {0, -20, 20, -40} for f64 logistic fits, {0, -20, -40} for GLM and f32, probes at 2^40 / 2^20 where argmin breaks down: known finding F-C12-1); stationarity is claimed where the solver honours its tolerance (with intercept: all scales up to 2^20; without: |X|_F >= 2^-20), counted as stationarity_not_claimed otherwise; queries include stored rows, fresh rows, the origin and rows with |x.w| up to 1e4; non-trivial = every successfully fitted case; distinct = hashes of (data, labels, configuration)");
     std::process::exit(0);
 }
